@@ -334,6 +334,14 @@ impl Ledger {
                     let after = self.shard_usage(s);
                     if after > cap {
                         self.n_over_capacity_excused += 1;
+                        let others_held = self.ids.iter().any(|(i, info)| i != id && info.handles > 0 && !info.phantom);
+                        if !others_held && *w <= cap {
+                            self.find(
+                                "handle",
+                                "handle:over-capacity-with-no-outstanding-handles",
+                                format!("shard {s}: after inserting key {k} (weight {w}) usage is {after} > capacity {cap} although no other handle is outstanding"),
+                            );
+                        }
                     }
                 }
             }
